@@ -243,7 +243,9 @@ func Drive(args []string) int {
 		b, _ := json.MarshalIndent(v, "", " ")
 		sum := sha1.Sum([]byte(v.Sig))
 		path := filepath.Join(*verifDir, "replay", fmt.Sprintf("%s-%x.json", p.ID, sum[:6]))
-		os.WriteFile(path, b, 0o644)
+		if len(printed) <= 60 {
+			os.WriteFile(path, b, 0o644)
+		}
 		if len(printed) <= 12 {
 			fmt.Printf("VIOLATION property=%s replay=%s\n", p.ID, path)
 			fmt.Printf("  signature=%s count=%d\n  case=%s\n  expected=%s\n  observed=%s\n", v.Sig, merged.SigCounts[v.Sig], oneLine(v.Case), oneLine(v.Expected), oneLine(v.Observed))
